@@ -375,3 +375,35 @@ def run_copy_through(run, P):
                                       'a record that is only being copied into the new file is written with %s as argument %d, which the read call of this loop did not fill: the '
                                       'record on disk is no longer the one that was read' % (short(a)[:40], i), [])
     run.require(n >= (4 if run.cfg == 'base' else 0) or run.fixture_mode, 'R-PERSIST(copy-through): fewer than 4 record writes inside record-reading loops found')
+
+
+def run_no_remove(run, P):
+    """R-PERSIST (one atomic step): an updater replaces the real file by rename(tmp, real) and by nothing else.  In every function that
+    calls rename(), no remove() / unlink() is applied to the expression that is rename()'s destination: between such a removal and the
+    rename the file does not exist at all, and a crash there loses every record, old and new (the complete data sits in the .tmp file that
+    no loader reads)."""
+    from core.prog import strip, walk, ap, short, key
+    run.rule('R-PERSIST')
+    n = 0
+    for f in sorted(P.lib_funcs(), key=lambda f: f['name']):
+        ren = []
+        rem = []
+        for b, ev in P.events(f):
+            for t in walk(ev['e']):
+                if isinstance(t, dict) and t.get('k') == 'call':
+                    if t.get('fn') == 'rename' and len(t.get('a') or []) == 2:
+                        ren.append((ev, t))
+                    if t.get('fn') in ('remove', 'unlink') and t.get('a'):
+                        rem.append((ev, t))
+        if not ren:
+            continue
+        n += 1
+        dests = set(short(strip(t['a'][1])) for ev, t in ren)
+        run.instance('R-PERSIST', '%s: the real file is only ever replaced by rename()' % f['name'])
+        bad = [(ev, t) for ev, t in rem if short(strip(t['a'][0])) in dests]
+        run.oblige('R-PERSIST', not bad, '%s:no-remove-of-real-file' % f['name'])
+        for ev, t in bad:
+            run.violation('R-PERSIST', f['name'], ev['loc'], 'real-file-removed',
+                          '%s() is applied to %s, the destination of the rename() in this function: from here until the rename the file does not exist, a crash in between '
+                          'loses the old and the new state' % (t['fn'], short(strip(t['a'][0]))[:50]), [])
+    run.require(n >= (5 if run.cfg == 'base' else 0) or run.fixture_mode, 'R-PERSIST(one atomic step): fewer than 5 functions that rename() found')
